@@ -36,17 +36,27 @@ theorem step_stream (y : Sys) (o : Op) :
   | endRec => simp [step, accOf]
   | pop n =>
     unfold step Q.pop
-    by_cases hc : y.s.closed = true
+    by_cases hc : (y.s.closed || y.s.inTick) = true
     · simp [hc, accOf]
     · simp only [hc, accOf, Q.stream]
       simp [List.flatten_append, List.append_assoc]
       rw [← List.flatten_append, List.take_append_drop]
   | sync n =>
     unfold step Q.sync
-    by_cases hc : y.s.closed = true
+    by_cases hc : (y.s.closed || y.s.inTick) = true
     · simp [hc, accOf]
     · simp only [hc, accOf, Q.stream]
       simp [List.append_assoc]
+  | tick =>
+    unfold step Q.tick
+    by_cases hc : (y.s.closed || y.s.inTick) = true
+    · simp [hc, accOf]
+    · simp [hc, accOf, Q.stream, List.flatten_append, List.append_assoc]
+  | tickDone =>
+    unfold step Q.tickDone
+    by_cases hc : y.s.inTick = true
+    · simp [hc, accOf, Q.stream, List.append_assoc]
+    · simp [hc, accOf]
   | flush =>
     unfold step
     by_cases hc : y.s.closed = true
@@ -74,12 +84,22 @@ theorem step_bound (y : Sys) (o : Op) (h : y.s.q.length ≤ y.s.cap) :
   | endRec => simp [step]; omega
   | pop n =>
     unfold step Q.pop
-    by_cases hc : y.s.closed = true
+    by_cases hc : (y.s.closed || y.s.inTick) = true
     · simp [hc]; omega
     · simp [hc]; omega
   | sync n =>
     unfold step Q.sync
-    by_cases hc : y.s.closed = true
+    by_cases hc : (y.s.closed || y.s.inTick) = true
+    · simp [hc]; omega
+    · simp [hc]; omega
+  | tick =>
+    unfold step Q.tick
+    by_cases hc : (y.s.closed || y.s.inTick) = true
+    · simp [hc]; omega
+    · simp [hc]
+  | tickDone =>
+    unfold step Q.tickDone
+    by_cases hc : y.s.inTick = true
     · simp [hc]; omega
     · simp [hc]; omega
   | flush =>
@@ -167,6 +187,18 @@ theorem flush_post' (cap : Nat) (ops : List Op) (o : Op) (ho : o = .flush ∨ o 
 
 example : (runOps (Sys.init 2) [.w [1], .endRec, .w [2], .endRec, .w [3], .endRec]).1.s.closed = false := by decide
 
+/-- `flush_post` covers schedules with periodic flushes (`Op.tick`/`Op.tickDone` are ordinary schedule
+steps).  The schedule "periodic flush stalled on the disk — a write is accepted meanwhile — the periodic
+flush ends — explicit Flush": the Flush must still bring the write made during the tick into the file. -/
+example : (runOps (Sys.init 3) [.w [1], .endRec, .tick, .w [2], .endRec, .tickDone, .flush]).2 =
+    [.w [1] true, .e true, .tb 1, .w [2] true, .e true, .te 1, .f 0 [1, 2]] := by decide
+
+/-- … also when the explicit Flush arrives while the periodic flush is still stalled (the producer waits
+for it, then its own flush runs), and for Close. -/
+example : (runOps (Sys.init 3) [.w [1], .endRec, .tick, .w [2], .endRec, .flush, .tickDone, .pop 1]).2 =
+    [.w [1] true, .e true, .tb 1, .w [2] true, .e true, .f 0 [1, 2], .te 0, .p 0] := by decide
+
+
 /-- the guard is needed: a write issued after `Close` is still accepted while the channel has room,
 and is never written (asyncbufio: "we don't test for that case"). -/
 example : (runOps (Sys.init 2) [.close, .w [9], .endRec, .pop 1, .sync 1]).2
@@ -236,6 +268,12 @@ theorem step_closed (y : Sys) (op : Op) (h : y.s.closed = true) : (step y op).1.
   | endRec => simp [step, h]
   | pop n => simp [step, Q.pop, h]
   | sync n => simp [step, Q.sync, h]
+  | tick => simp [step, Q.tick, h]
+  | tickDone =>
+    unfold step Q.tickDone
+    by_cases hc : y.s.inTick = true
+    · simp [hc, h]
+    · simp [hc, h]
   | flush => simp [step, h]
   | close => simp [step, h]
   | snap => simp [step, h]
@@ -244,6 +282,85 @@ theorem runOps_closed (ops : List Op) (y : Sys) (h : y.s.closed = true) : (runOp
   induction ops generalizing y with
   | nil => simpa [runOps] using h
   | cons o os ih => simp only [runOps]; exact ih _ (step_closed y o h)
+
+
+/-- consumer-only steps (`pop`, `sync`, `tick`, `tickDone`): the writer stays open, the file only grows,
+nothing is accepted, the producer's record state is untouched. -/
+def isCons : Op → Bool
+  | .pop _ => true | .sync _ => true | .tick => true | .tickDone => true | _ => false
+
+theorem cons_facts (y : Sys) (op : Op) (h : isCons op = true) :
+    (step y op).1.s.closed = y.s.closed ∧ (∃ extra, (step y op).1.s.file = y.s.file ++ extra) ∧
+    (step y op).1.seen = y.seen ∧ (step y op).1.recOk = y.recOk ∧ accOf (step y op).2 = [] ∧
+    (∀ o : OSt, chkToks o (step y op).2 = .ok o) := by
+  have hchk : ∀ (o : OSt) (t : Tok), (match t with | .p _ => True | .y _ => True | .tb _ => True | .te _ => True | _ => False) →
+      chkToks o [t] = .ok o := by
+    intro o t ht
+    cases t <;> simp at ht <;> (by_cases hc : o.closed = true <;> simp [chkToks, ostep, hc])
+  cases op with
+  | pop k =>
+    unfold step Q.pop
+    by_cases hc : (y.s.closed || y.s.inTick) = true
+    · exact ⟨by simp [hc], ⟨[], by simp [hc]⟩, rfl, rfl, by simp [accOf], fun o => hchk o _ trivial⟩
+    · exact ⟨by simp [hc], ⟨[], by simp [hc]⟩, rfl, rfl, by simp [accOf], fun o => hchk o _ trivial⟩
+  | sync k =>
+    unfold step Q.sync
+    by_cases hc : (y.s.closed || y.s.inTick) = true
+    · exact ⟨by simp [hc], ⟨[], by simp [hc]⟩, rfl, rfl, by simp [accOf], fun o => hchk o _ trivial⟩
+    · exact ⟨by simp [hc], ⟨_, by simp [hc]; rfl⟩, rfl, rfl, by simp [accOf], fun o => hchk o _ trivial⟩
+  | tick =>
+    unfold step Q.tick
+    by_cases hc : (y.s.closed || y.s.inTick) = true
+    · exact ⟨by simp [hc], ⟨[], by simp [hc]⟩, rfl, rfl, by simp [accOf], fun o => hchk o _ trivial⟩
+    · exact ⟨by simp [hc], ⟨[], by simp [hc]⟩, rfl, rfl, by simp [accOf], fun o => hchk o _ trivial⟩
+  | tickDone =>
+    unfold step Q.tickDone
+    by_cases hc : y.s.inTick = true
+    · exact ⟨by simp [hc], ⟨_, by simp [hc]; rfl⟩, rfl, rfl, by simp [accOf], fun o => hchk o _ trivial⟩
+    · exact ⟨by simp [hc], ⟨[], by simp [hc]⟩, rfl, rfl, by simp [accOf], fun o => hchk o _ trivial⟩
+  | _ => simp [isCons] at h
+
+theorem cons_J (y : Sys) (o : OSt) (n : Nat) (op : Op) (hJ : J y o n) (h : isCons op = true) :
+    chkToks o (step y op).2 = .ok o ∧ J (step y op).1 o n := by
+  obtain ⟨yopen, oopen, seenle, filed, strm, cnt, le1, ok0⟩ := hJ
+  obtain ⟨e4, ⟨extra, e1⟩, e2, e3, e5, e6⟩ := cons_facts y op h
+  have hst := step_stream y op
+  refine ⟨e6 o, ⟨by rw [e4]; exact yopen, oopen, by rw [e1, e2]; simp; omega,
+    by rw [e1, e2, take_file_ext _ _ _ seenle]; exact filed,
+    by rw [hst, e5, e3, strm]; simp, cnt, le1, by rw [e3]; exact ok0⟩⟩
+
+theorem step_keeps_open (y : Sys) (op : Op) (h : op ≠ .close) : (step y op).1.s.closed = y.s.closed := by
+  cases op with
+  | w c =>
+    unfold step
+    by_cases hr : y.recOk = true
+    · simp only [hr, if_true]; rw [write_closed]
+    · simp only [hr]; rfl
+  | endRec => simp [step]
+  | pop k => exact (cons_facts y _ rfl).1
+  | sync k => exact (cons_facts y _ rfl).1
+  | tick => exact (cons_facts y _ rfl).1
+  | tickDone => exact (cons_facts y _ rfl).1
+  | flush =>
+    unfold step
+    by_cases hc : y.s.closed = true
+    · simp [hc]
+    · simp [hc, Q.drain]
+  | close => exact absurd rfl h
+  | snap => simp [step]
+
+/-- **flush_post with a stalled periodic flush**: for every history `ops`, if the ticker fires, a record is
+accepted while that periodic flush is in progress, the periodic flush ends, and the producer then calls
+`Flush`: when it returns the file holds everything accepted, including that record. -/
+theorem flush_post_in_tick (cap : Nat) (ops : List Op)
+    (hc : (runOps (Sys.init cap) (ops ++ [.tick])).1.s.closed = false) (c : Chunk) :
+    (runOps (Sys.init cap) (ops ++ [.tick] ++ [.w c, .endRec, .tickDone] ++ [.flush])).1.s.file =
+      (accOf (runOps (Sys.init cap) (ops ++ [.tick] ++ [.w c, .endRec, .tickDone] ++ [.flush])).2).flatten := by
+  apply flush_post' cap _ .flush (Or.inl rfl)
+  rw [runOps_append]
+  simp only [runOps]
+  rw [step_keeps_open _ _ (by simp), step_keeps_open _ _ (by simp), step_keeps_open _ _ (by simp)]
+  exact hc
 
 /-- one step preserves the joint invariant and the oracle accepts its token(s). -/
 theorem step_J (y : Sys) (o : OSt) (n : Nat) (op : Op) (hJ : J y o n)
@@ -275,25 +392,17 @@ theorem step_J (y : Sys) (o : OSt) (n : Nat) (op : Op) (hJ : J y o n)
     rw [strm]
     by_cases hr : y.recOk = true <;> simp [hr]
   | pop k =>
-    have hst := step_stream y (.pop k)
-    refine ⟨o, by simp [step, chkToks, ostep, oopen], Or.inr ?_⟩
-    have e1 : (step y (.pop k)).1.s.file = y.s.file := by simp [step, Q.pop, yopen]
-    have e2 : (step y (.pop k)).1.seen = y.seen := by simp [step]
-    have e3 : (step y (.pop k)).1.recOk = y.recOk := by simp [step]
-    have e4 : (step y (.pop k)).1.s.closed = false := by simp [step, Q.pop, yopen]
-    have e5 : accOf (step y (.pop k)).2 = [] := by simp [step, accOf]
-    exact ⟨e4, oopen, by rw [e1, e2]; exact seenle, by rw [e1, e2]; exact filed,
-      by rw [hst, e5, e3, strm]; simp, cnt, le1, by rw [e3]; exact ok0⟩
+    have := cons_J y o n (.pop k) ⟨yopen, oopen, seenle, filed, strm, cnt, le1, ok0⟩ rfl
+    exact ⟨o, this.1, Or.inr (by simpa [nextN] using this.2)⟩
   | sync k =>
-    have hst := step_stream y (.sync k)
-    refine ⟨o, by simp [step, chkToks, ostep, oopen], Or.inr ?_⟩
-    have e1 : (step y (.sync k)).1.s.file = y.s.file ++ y.s.buf.flatten.take k := by simp [step, Q.sync, yopen]
-    have e2 : (step y (.sync k)).1.seen = y.seen := by simp [step]
-    have e3 : (step y (.sync k)).1.recOk = y.recOk := by simp [step]
-    have e4 : (step y (.sync k)).1.s.closed = false := by simp [step, Q.sync, yopen]
-    have e5 : accOf (step y (.sync k)).2 = [] := by simp [step, accOf]
-    exact ⟨e4, oopen, by rw [e1, e2]; simp; omega, by rw [e1, e2, take_file_ext _ _ _ seenle]; exact filed,
-      by rw [hst, e5, e3, strm]; simp, cnt, le1, by rw [e3]; exact ok0⟩
+    have := cons_J y o n (.sync k) ⟨yopen, oopen, seenle, filed, strm, cnt, le1, ok0⟩ rfl
+    exact ⟨o, this.1, Or.inr (by simpa [nextN] using this.2)⟩
+  | tick =>
+    have := cons_J y o n .tick ⟨yopen, oopen, seenle, filed, strm, cnt, le1, ok0⟩ rfl
+    exact ⟨o, this.1, Or.inr (by simpa [nextN] using this.2)⟩
+  | tickDone =>
+    have := cons_J y o n .tickDone ⟨yopen, oopen, seenle, filed, strm, cnt, le1, ok0⟩ rfl
+    exact ⟨o, this.1, Or.inr (by simpa [nextN] using this.2)⟩
   | flush =>
     have hfile : y.s.drain.file = y.s.stream := by simp [Q.drain, Q.stream]
     have hd : o.file.flatten ++ y.s.drain.file.drop y.seen = y.s.stream := by
